@@ -265,6 +265,7 @@ func c03Backends(c *Ctx) {
 			continue
 		}
 		seen[fn] = true
+		c.scope(fn)
 		key := fnKey(fn)
 		var idParam *ssa.Parameter
 		for _, p := range fn.Params {
